@@ -264,6 +264,20 @@ def run(tier, replay=None):
                 mine = []
                 c15.check_backlog(c, ob, mine)
                 violations.extend(("wedged: " + w, cc) for (w, cc) in mine)
+        # interleaved histories (lib/conclib.py): requests, clean-ups and time-outs suspended in the modulator while a BYSTANDER
+        # asks for something that needs no channel lock: it is answered at once; afterwards a full window is served
+        import conclib as cl
+        ih = cl.owner_leave_family(r, thorough) + cl.cleanup_family(r, thorough) + cl.timeout_family(r, thorough) + cl.overlap_join_family(r, thorough)
+        iobs, spinning, blocked = cl.run_conc(ih, "c13i")
+        stats["interleaved_histories"] = len(ih)
+        for i in blocked:
+            violations.append(("wedged: the server process does not come back and is asleep (a blocked worker)", ih[i]))
+        for i, (c, ob) in enumerate(zip(ih, iobs)):
+            if i in spinning or i in blocked:
+                continue
+            for (tagv, what, t) in cl.monitor(c, ob):
+                if tagv == "C13":
+                    violations.append((what, c))
     coverage = {
         "obligations": len(THEOREMS), "discharged": len([t for t in THEOREMS if closed.get(t) == "closed"]),
         "checker_cmd": "python3 translator/gen.py && make -C coq -j16 Props/C13.vo && coqc work/assm_C13.v",
